@@ -334,3 +334,58 @@ PROPERTY_META["C05"] = {
     "outside": "words that are neither a card nor blank (C04 covers the validated path for those); 'no hang' is covered by the passing unwinding assertions (all loops bounded)",
     "assumptions": COMMON_ASSUME,
 }
+
+S5NOTE = ["S5: <Five as HandRanker>::hand_rank_value_and_hand replaced by an uninterpreted evaluator: a nondeterministic table of values in 1..=7462 indexed by the SET of "
+          "base cards in the five slots (order-invariant, functional); reaching it with anything but five distinct base cards is a failure (strict). "
+          "The real evaluator has these three properties by C01."]
+SIXSEVEN = ["hand_rank_value_and_hand", "HandRanker::hand_rank_value (default)", "Permutator::five_from_permutation", "FIVE_CARD_PERMUTATIONS", "Five::sort (core sort_unstable + reverse)"]
+# ---------------------------------------------------------------- C02 / C03
+C02_ABS = [
+    H("c02_seven", timeout=1800, functions=["Seven::" + x for x in SIXSEVEN], domain="seven distinct real cards, any slot order; every five-card evaluator satisfying S5",
+      bound="whole domain; unwind 130 (harness enumerates all 128 slot masks itself)", assume=S5NOTE, draws="(r,s)*7, then T (ignored natively)"),
+    H("c02_six", timeout=1800, functions=["Six::" + x for x in SIXSEVEN], domain="six distinct real cards, any slot order; every five-card evaluator satisfying S5",
+      bound="whole domain; unwind 66", assume=S5NOTE, draws="(r,s)*7 (first six used), then T"),
+]
+C02_REAL = [
+    H("c02_seven_royal_mask", tier="thorough", solver="kissat", timeout=3000, functions=["Seven::hand_rank_value_and_hand"] + EVAL, domain="REAL evaluator: royal flush of spades on any 5 of 7 slots (symbolic mask, 21 masks), 2c and 7d in the other two",
+      bound="whole family; unwind 23", draws="m:u8"),
+    H("c02_six_royal_mask", tier="thorough", solver="kissat", timeout=1800, functions=["Six::hand_rank_value_and_hand"] + EVAL, domain="REAL evaluator: royal flush of spades on any 5 of 6 slots x any other card",
+      bound="whole family; unwind 14", draws="m:u8, (r,s)"),
+]
+TABLE["C02"] = C02_ABS + C02_REAL
+PROPERTY_META["C02"] = {
+    "claim": "six/seven value == min over ALL five-card subsets (enumerated by bit masks, independent of the repository's row tables) of the five-card value, for every slot order, "
+             "for every evaluator with the S5 facts; by C01 (real value = rule-derived ordinal) this is 'equals a direct rule-based evaluation'. Real-evaluator family: royal flush on every slot mask.",
+    "outside": "the real evaluator inside the 21-way minimisation is abstracted (S5) except on the royal-mask family; a defect that only shows for specific real values and not for the abstraction cannot exist (the abstraction is more general)",
+    "assumptions": COMMON_ASSUME + S5NOTE,
+}
+TABLE["C03"] = C02_ABS + C02_REAL + [
+    H("c05_five_total", solver="kissat", timeout=1800, functions=EVAL, domain="five slots over " + CARDBLANK + ": reported hand == input (identity clause, real evaluator)", bound="whole domain; unwind 14", draws="(r,s)*5"),
+]
+PROPERTY_META["C03"] = {
+    "claim": "six/seven: reported hand strictly descending (hence five distinct), every card from the input, and f(reported hand) == reported value, for every S5 evaluator and slot order; "
+             "five: reported hand == input on the real evaluator for every card-or-blank five (and in every C01 harness)",
+    "outside": "as C02",
+    "assumptions": COMMON_ASSUME + S5NOTE,
+}
+# ---------------------------------------------------------------- C09
+TABLE["C09"] = [
+    H("c09_seven_vs_six", timeout=2400, functions=["Seven::hand_rank_value", "Six::hand_rank_value"] + ["Six/Seven::" + x for x in SIXSEVEN[2:]],
+      domain="seven distinct real cards, any order, all seven six-card sub-hands; S5 evaluator", bound="whole domain; unwind 23", assume=S5NOTE, draws="(r,s)*7, then T"),
+    H("c09_six_vs_five", timeout=1800, functions=["Six::hand_rank_value", "Five::hand_rank_value (stub)"], domain="six distinct real cards, any order, all six five-card sub-hands; S5 evaluator",
+      bound="whole domain; unwind 14", assume=S5NOTE, draws="(r,s)*7 (first six used), then T"),
+]
+PROPERTY_META["C09"] = {
+    "claim": "v7 <= every v6 and == min v6; v6 <= every v5 and == min v5 — for every evaluator with the S5 facts, all slot orders",
+    "outside": "as C02 (S5 abstraction of the five-card evaluator)",
+    "assumptions": COMMON_ASSUME + S5NOTE,
+}
+# C06: add the wiring of hand_rank()/hand_rank_validated() to the value
+TABLE["C06"] += WIRING(validated=())
+# C08: six/seven value under shift
+TABLE["C08"] += [
+    H("c08_value_shift_seven", timeout=1800, functions=["<Seven as Shifty>::shift_suit", "Seven::hand_rank_value"], domain="seven distinct real cards, any order, the three non-trivial shifts",
+      bound="whole domain; unwind 23", assume=S5NOTE + ["shift variant: the evaluator's value depends only on the set of base cards when all five are shifted uniformly (five-card invariance is decided on the real evaluator by c08_value_*)"], draws="(r,s)*7, then T"),
+    H("c08_value_shift_six", timeout=1800, functions=["<Six as Shifty>::shift_suit", "Six::hand_rank_value"], domain="six distinct real cards, any order, the three non-trivial shifts",
+      bound="whole domain; unwind 14", assume=S5NOTE, draws="(r,s)*7 (first six used), then T"),
+]
